@@ -1139,7 +1139,60 @@ func (hs *serverHandshakeStateTLS13) sendSessionTickets() error {
 	if !hs.shouldSendSessionTickets() {
 		return nil
 	}
+	if byz := c.config.Byz; byz != nil && byz.TicketCount > 1 {
+		return c.sendSessionTicketsByz(byz.TicketCount, byz.TicketsInOneRecord)
+	}
 	return c.sendSessionTicket(false, nil)
+}
+
+// sendSessionTicketsByz sends n NewSessionTicket messages with distinct nonces, one record each or
+// all in one record.
+func (c *Conn) sendSessionTicketsByz(n int, oneRecord bool) error {
+	suite := cipherSuiteTLS13ByID(c.cipherSuite)
+	if suite == nil {
+		return errors.New("tls: internal error: unknown cipher suite")
+	}
+	var all []byte
+	for i := 0; i < n; i++ {
+		nonce := []byte{byte(i)}
+		m := new(newSessionTicketMsgTLS13)
+		m.nonce = nonce
+		state := c.sessionState()
+		state.secret = tls13.ExpandLabel(suite.hash.New, c.resumptionSecret, "resumption", nonce, suite.hash.Size())
+		stateBytes, err := state.Bytes()
+		if err != nil {
+			return err
+		}
+		if m.label, err = c.config.encryptTicket(stateBytes, c.ticketKeys); err != nil {
+			return err
+		}
+		m.lifetime = uint32(maxSessionTicketLifetime / time.Second)
+		ageAdd := make([]byte, 4)
+		if _, err := c.config.rand().Read(ageAdd); err != nil {
+			return err
+		}
+		m.ageAdd = byteorder.LEUint32(ageAdd)
+		if !oneRecord {
+			if _, err := c.writeHandshakeRecord(m, nil); err != nil {
+				return err
+			}
+			continue
+		}
+		data, err := m.marshal()
+		if err != nil {
+			return err
+		}
+		all = append(all, data...)
+	}
+	if oneRecord {
+		c.out.Lock()
+		defer c.out.Unlock()
+		if _, err := c.writeRecordLocked(recordTypeHandshake, all); err != nil {
+			return err
+		}
+	}
+	c.config.Byz.note("tickets n=%d one-record=%v", n, oneRecord)
+	return nil
 }
 
 func (c *Conn) sendSessionTicket(earlyData bool, extra [][]byte) error {
